@@ -26,7 +26,9 @@
    atomic; the batch loops (expire, prune, remove volume, migrate) are modelled as their
    fixpoint, and additionally as single-row micro operations (DropRoot, DropTemp, PruneOne,
    MigrateOne) so that op sequences also cover every interleaving at batch granularity.
-   No proofs here. *)
+   Batch.v models the same loops one committed batch (transaction) at a time, with the real
+   batch size and the rows SQLite picked; BatchProofs*.v prove the fixpoints below equal to the
+   iteration of those batches.  No proofs here. *)
 From HostdBase Require Import Base.
 
 (** * Slots of one volume: volume_sectors rows (volume_index, sector_id) *)
